@@ -2,6 +2,7 @@
    harness, `-` = NULL); the model only compares them. -/
 import Hw.Attr.Diff
 import Hw.Attr.DiffBuildApply
+import Hw.Io.XmlDiff
 import Driver.Util
 namespace Driver.DiffEng
 open Hw.Diff Driver
@@ -113,6 +114,102 @@ def showData (d : Data String) : String :=
 def showObs (t : T) : String :=
   t.flat.foldl (fun s d => s ++ showData d ++ " ") "" ++ "T:" ++ showInfos t.tinfos
 
+
+/-! ### the diff XML exporter / importer models (Hw.Io.XmlDiff): strings are decoded to bytes here -/
+
+open Hw.XmlDiff in
+def decBytes (s : String) : Option Bytes :=
+  match s.toList with
+  | 's' :: r =>
+    let rec go : List Char → Option (List Nat)
+      | [] => some []
+      | a :: b :: t => do
+        let x ← hexDigitVal a
+        let y ← hexDigitVal b
+        let l ← go t
+        pure ((x * 16 + y) :: l)
+      | _ => none
+    go r
+  | _ => none
+
+def encBytes (b : List Nat) : String :=
+  "s" ++ String.ofList (b.flatMap (fun c => [hexChar (c / 16 % 16), hexChar (c % 16)]))
+
+def optBytes (s : String) : Option (Option (List Nat)) := if s = "-" then some none else (decBytes s).map some
+def showOptB : Option (List Nat) → String
+  | none => "-"
+  | some b => encBytes b
+
+def parseEntryB (s : String) : Option (Entry (List Nat)) :=
+  match s.splitOn ":" with
+  | ["U"] => some .unknown
+  | ["TC", d, i] => (parseKey d i).map .tooComplex
+  | ["A", d, i] => (parseKey d i).map (fun k => .objAttr k .unknown)
+  | ["S", d, i, o, n] => do pure (.objAttr (← parseKey d i) (.size (← parseMem o) (← parseMem n)))
+  | ["N", d, i, o, n] => do pure (.objAttr (← parseKey d i) (.name (← optBytes o) (← optBytes n)))
+  | ["I", d, i, nm, o, n] => do pure (.objAttr (← parseKey d i) (.info (← decBytes nm) (← decBytes o) (← decBytes n)))
+  | _ => none
+
+def showEntryB : Entry (List Nat) → String
+  | .unknown => "U"
+  | .tooComplex k => "TC:" ++ showKey k
+  | .objAttr k .unknown => "A:" ++ showKey k
+  | .objAttr k (.size o n) => "S:" ++ showKey k ++ ":" ++ toString o.toNat ++ ":" ++ toString n.toNat
+  | .objAttr k (.name o n) => "N:" ++ showKey k ++ ":" ++ showOptB o ++ ":" ++ showOptB n
+  | .objAttr k (.info nm o n) => "I:" ++ showKey k ++ ":" ++ encBytes nm ++ ":" ++ encBytes o ++ ":" ++ encBytes n
+
+def takeAttrsB : Nat → List String → Option (List (List Nat × List Nat) × List String)
+  | 0, ts => some ([], ts)
+  | n + 1, a :: b :: ts => do
+    let a ← decBytes a
+    let b ← decBytes b
+    let (r, ts) ← takeAttrsB n ts
+    pure ((a, b) :: r, ts)
+  | _, _ => none
+
+def takeElsB : Nat → List String → Option (List (List Nat × List (List Nat × List Nat)) × List String)
+  | 0, ts => some ([], ts)
+  | n + 1, tag :: k :: ts => do
+    let tag ← decBytes tag
+    let (a, ts) ← takeAttrsB (← parseNat k) ts
+    let (r, ts) ← takeElsB n ts
+    pure ((tag, a) :: r, ts)
+  | _, _ => none
+
+/-- `R <k> (name value)* E <m> (tag <k> (name value)*)*` -/
+def parseDoc (ts : List String) : Option Hw.XmlDiff.Doc :=
+  match ts with
+  | "R" :: k :: ts => do
+    let (root, ts) ← takeAttrsB (← parseNat k) ts
+    match ts with
+    | "E" :: m :: ts =>
+      let (els, ts) ← takeElsB (← parseNat m) ts
+      if ts ≠ [] then none else pure { root, els }
+    | _ => none
+  | _ => none
+
+def showAttrsB (a : List (List Nat × List Nat)) : String :=
+  toString a.length ++ a.foldl (fun s x => s ++ " " ++ encBytes x.1 ++ " " ++ encBytes x.2) ""
+
+def showDoc (d : Hw.XmlDiff.Doc) : String :=
+  "R " ++ showAttrsB d.root ++ " E " ++ toString d.els.length ++ d.els.foldl (fun s e => s ++ " " ++ encBytes e.1 ++ " " ++ showAttrsB e.2) ""
+
+def parseBackend (s : String) : Option Hw.XmlDiff.Backend :=
+  if s = "0" then some .nolibxml else if s = "1" then some .libxml else none
+
+def showLoaded (r : Hw.XmlDiff.Loaded) : String :=
+  "ret=" ++ toString r.ret ++ " ref=" ++ showOptB r.ref ++ " n=" ++ toString r.diff.length ++ r.diff.foldl (fun s e => s ++ " " ++ showEntryB e) ""
+
+def xexp (be : Hw.XmlDiff.Backend) (ref : Option (List Nat)) (es : List (Entry (List Nat))) : String :=
+  match Hw.XmlDiff.exportDoc ref es with
+  | .einval => "ret=-1"
+  | .undef => "undef"
+  | .ok d =>
+    "ret=0 " ++ showDoc d ++
+      (match be with
+       | .nolibxml => " bytes=" ++ encBytes (Hw.XmlDiff.renderDoc d)
+       | .libxml => "")
+
 def getT (st : State) (s : String) : Option (Nat × T) := do
   let i ← parseNat s
   let t ← (← st[i]?)
@@ -157,6 +254,18 @@ def step (st : State) (line : String) : State × String :=
       let r := apply rev t es
       (st.setIfInBounds i (some r.2), "ret=" ++ toString r.1 ++ " " ++ showObs r.2)
     | _, _, _ => bad
+  | "xexp" :: be :: ref :: es =>
+    -- hwloc_topology_diff_export_xmlbuffer: the token-level document (and, for the nolibxml back end, its exact text)
+    match parseBackend be, optBytes ref, es.mapM parseEntryB with
+    | some be, some ref, some es => (st, xexp be ref es)
+    | _, _, _ => bad
+  | "xload" :: be :: doc =>
+    -- hwloc_topology_diff_load_xmlbuffer on a document given by its tokens
+    -- (the nolibxml importer reads the attributes from the text: the tokens go through the byte-level render / scan models first)
+    match parseBackend be, parseDoc doc with
+    | some .nolibxml, some d => (st, showLoaded (Hw.XmlDiff.importDoc .nolibxml (Hw.XmlDiff.rescan d)))
+    | some .libxml, some d => (st, showLoaded (Hw.XmlDiff.importDoc .libxml d))
+    | _, _ => bad
   | _ => bad
 
 end Driver.DiffEng
